@@ -623,9 +623,30 @@ func c04DropOnError(r *Run) {
 	r.Floor(rule, "recvLoop iteration paths", n, 3)
 }
 
-func c04LazyDecode(r *Run) {
-	const rule = "C04-R6-lazy-body-decode"
+func c04LazyDecode(r *Run) { c04LazyDecodeAs(r, "C04-R6-lazy-body-decode") }
+
+func c04LazyDecodeAs(r *Run, rule string) {
 	w := r.W
+	// the memoized tree encoding: treeBody.enc is written only inside the closure given to
+	// treeBody.once.Do, and read only after that Do
+	fEnc := w.Field("internal/wire", "treeBody", "enc")
+	nEnc := 0
+	for _, fu := range w.fieldUses(fEnc) {
+		if !w.IsProd(fu.Fn) {
+			continue
+		}
+		switch fu.Kind {
+		case "store":
+			nEnc++
+			r.Check(isOnceBody(w, fu.Fn), rule, "treeBody.enc written in "+w.FnName(fu.Fn), fu.Pos(), "inside once.Do", "the memoized encoding may be written only under the body's sync.Once")
+		case "load":
+			dos := callsIn(fu.Fn, isMethodNamed("sync", "Once", "Do"))
+			r.Check(len(dos) == 1 && instrDominates(dos[0], fu.Instr2), rule, "treeBody.enc read in "+w.FnName(fu.Fn), fu.Pos(), "after once.Do", "the memoized encoding may be read only after once.Do returned")
+		default:
+			r.Fail(rule, "treeBody.enc "+fu.Kind+" in "+w.FnName(fu.Fn), fu.Pos(), "unexpected use of the memoized encoding")
+		}
+	}
+	r.Floor(rule, "treeBody.enc writes", nEnc, 1)
 	// decodeOwnedFrame (and what it calls in hsms/wire) reaches no secs2 decoder
 	dof := w.Fn("hsms", "decodeOwnedFrame")
 	seen := map[*ssa.Function]bool{}
